@@ -1560,5 +1560,42 @@ theorem run_spec (c : Cfg) (hok : c.OK) (op : Op) (s : St) (hG : Good c s) (happ
   | viewAssign i j => exact viewAssign_spec c hok i j s hG happ
   | saMove a es => exact saMove_spec c hok a es s hG hfx
 
+/-! ### histories -/
+
+/-- every repair is in the code (the tree after fixes/F6, F7, F8) -/
+def Cfg.Fixed (c : Cfg) : Prop := c.fx6 = true ∧ c.fx7 = true ∧ c.fx8 = true
+
+theorem fixedIn_of_fixed {c : Cfg} (h : c.Fixed) (op : Op) : op.fixedIn c = true := by
+  obtain ⟨h6, h7, h8⟩ := h
+  cases op <;> simp [Op.fixedIn, h6, h7, h8]
+
+/-- one operation of a history: operations the caller may not perform in the current state are skipped (the harness does
+    the same); an exception reaches the caller and the history goes on; std::terminate and undefined behaviour end it -/
+def stepSt (c : Cfg) (s : St) (op : Op) : Option St :=
+  if op.applicable c s = true then
+    match op.run c s with
+    | .ok _ s' => some s'
+    | .threw s' => some s'
+    | .term _ => none
+    | .ub _ => none
+  else some s
+
+def runHist (c : Cfg) : List Op → St → Option St
+  | [], s => some s
+  | op :: ops, s =>
+    match stepSt c s op with
+    | some s' => runHist c ops s'
+    | none => none
+
+/-- the empty pool of `p` slots over the empty heap -/
+def initSt (p : Nat) (fuel : Option Nat := none) : St := { arrs := List.replicate p none, fuel := fuel }
+
+theorem good_init (c : Cfg) (p : Nat) (fuel : Option Nat) : Good c (initSt p fuel) := by
+  refine ⟨Inv.init c p, ?_⟩
+  intro i a hi
+  simp only [initSt] at hi
+  rw [List.getElem?_replicate] at hi
+  split at hi <;> simp at hi
+
 end Ledger
 end Multi
